@@ -89,8 +89,8 @@ def mfront_text(p, suffix=""):
             t += "@PhysicalBounds %s in %s;\n" % (v["name"], mfront_bounds(v["phys"]))
         if v["bounds"]:
             t += "@Bounds %s in %s;\n" % (v["name"], mfront_bounds(v["bounds"]))
-    use = "".join(" + 0 * %s%s" % (v["name"], ".getValue()" if p["useqt"] else "") for v in p["inputs"])
-    t += ("@Function{\n  y = decltype(y)(c38_value%s);\n  if(c38_errno != 0){ errno = c38_errno; }\n"
+    use = "".join("  static_cast<void>(%s);\n" % v["name"] for v in p["inputs"])
+    t += ("@Function{\n%s  y = decltype(y)(c38_value);\n  if(c38_errno != 0){ errno = c38_errno; }\n"
           "  if(c38_throw == 1){ throw std::runtime_error(\"boom\"); }\n  if(c38_throw == 2){ throw 3; }\n}\n" % use)
     return t
 
